@@ -1,15 +1,16 @@
 #!/bin/bash
 # tools/process_seed.sh <ID> [checkID...] -- <demo go test args>
+# (SEED_WT=<worktree> SEED_DEST=<dir name under seeded/> override the defaults)
 # confirms the seed in /tmp/seed-<ID>, runs the quick check(s) against it, copies the seed files
 # to /verif/seeded/<ID>/ and prints what happened. (development helper, not a registered command)
 export GOFLAGS=-mod=mod GOPROXY=off GOSUMDB=off GOTOOLCHAIN=local
 ID=$1; shift; CHECKS=(); while [ "$1" != "--" ] && [ $# -gt 0 ]; do CHECKS+=("$1"); shift; done; shift
 [ ${#CHECKS[@]} -eq 0 ] && CHECKS=($ID)
-WT=/tmp/seed-$ID
+WT=${SEED_WT:-/tmp/seed-$ID}; DEST=${SEED_DEST:-$ID}
 /verif/tools/confirm_seed.sh $ID $WT "$@" 2>&1 | tail -9
-mkdir -p /verif/seeded/$ID
-cp $WT/seed/patch.diff $WT/seed/demo_test.go.txt /verif/seeded/$ID/
-cp $WT/seed/meta.json /verif/seeded/$ID/meta.json
+mkdir -p /verif/seeded/$DEST
+cp $WT/seed/patch.diff $WT/seed/demo_test.go.txt /verif/seeded/$DEST/
+cp $WT/seed/meta.json /verif/seeded/$DEST/meta.json
 for c in "${CHECKS[@]}"; do
   out=$(cd /verif && POLYSIM_REPO=$WT ./check $c quick 2>&1); rc=$?
   echo "== check $c against seed $ID: exit=$rc"; echo "$out" | grep -E "violation key|VIOLATION|KNOWN-FINDING|inconclusive|zero" | head -6
